@@ -318,6 +318,10 @@ def gen_observables(tape: Tape, T: float, dt: float, kinds: list[str] | None = N
         if k == "bitstrings":
             d["shots"] = tape.int(shots[0], shots[1], "shots")
         obs.append(d)
+    # the order in which the observables are listed is the order in which the callbacks see the (shared) state object
+    # and in which the adapter collects their times: part of the schedule, not of the physics
+    if len(obs) > 1 and tape.bool(0.6, "shuffle_observables"):
+        obs = [obs[i] for i in tape.permutation(len(obs), "obs_order")]
     return obs, default_times
 
 
